@@ -245,7 +245,24 @@ def run_query(q):
         for i, a, b, j, w in q["t"]["arcs"]:
             t.add_arc(i, (sym(a), osym(b)), j, conv(w, flt))
         h = (cfg @ t) if q.get("order", "cfg@fst") == "cfg@fst" else (t.T @ cfg)
-        return [enc(h(o2py(y))) for y in q["ys"]]
+        then = q.get("then")
+        if then is None:
+            return [enc(h(o2py(y))) for y in q["ys"]]
+        if then[0] == "truncate":
+            h2 = h.truncate_length(then[1])
+            return [enc(h2(o2py(y))) for y in q["ys"]]
+        if then[0] == "fst":
+            # second transducer reads the first one's output alphabet (upper-case) and writes lower-case
+            t2 = FST(Float)
+            for qq, w in then[1]["init"]:
+                t2.add_I(qq, conv(w, flt))
+            for qq, w in then[1]["final"]:
+                t2.add_F(qq, conv(w, flt))
+            for i, a, b, j, w in then[1]["arcs"]:
+                t2.add_arc(i, (osym(a), sym(b)), j, conv(w, flt))
+            h2 = h @ t2
+            return [enc(h2(s2py(z))) for z in q["ys"]]
+        raise ValueError(then)
     raise ValueError(op)
 
 
